@@ -85,6 +85,9 @@ func (g *Gen) fill(kind string, p *Program) Op {
 		op.D = []string{d()}
 	case "Add", "Sub", "Mul", "Quo", "Pow", "Max", "Min", "QuoRem", "Cmp", "CmpAbs", "Equal", "Compare":
 		op.D = []string{d(), d()}
+	case "ModeTwin":
+		op.D = []string{d(), d()}
+		op.I = []int64{int64(g.R.N(6))}
 	case "AddWithMode", "SubWithMode", "MulWithMode", "QuoWithMode", "PowWithMode", "QuoRemWithMode":
 		op.D = []string{d(), d()}
 		op.I = []int64{g.modeArg()}
@@ -469,7 +472,7 @@ func (g *Gen) tasksOf(p *Program, nt, maxOps int, kinds []string, weights []int)
 // p20Kinds: every exported entry point is reachable through one of these.
 var p20Kinds = []string{
 	"Abs", "Cbrt", "Ceil", "Exp", "Exp10", "Exp2", "Expm1", "Floor", "Log", "Log10", "Log1p", "Log2", "Round", "Sqrt", "Trunc",
-	"Canonical", "Neg", "Add", "Sub", "Mul", "Quo", "Pow", "Max", "Min",
+	"Canonical", "Neg", "Add", "Sub", "Mul", "Quo", "Pow", "Max", "Min", "ModeTwin",
 	"AddWithMode", "SubWithMode", "MulWithMode", "QuoWithMode", "PowWithMode", "QuoRem", "QuoRemWithMode",
 	"Cmp", "CmpAbs", "CmpResult", "Equal", "Compare", "CeilDP", "FloorDP", "RoundDP",
 	"IsInf", "IsNaN", "IsZero", "Signbit", "Sign", "Payload", "PayloadString", "RoundingModeString", "Const",
